@@ -186,6 +186,41 @@ fn compile_imm(goenv: &GlobalGoEnv, imm: &anf::ImmExpr) -> goast::Expr {
     }
 }
 
+/// The value stored in the `data any` field of a trait object. A numeric literal has no type of
+/// its own in Go: stored as it is it would take the default type (`int`, `float64`) and the
+/// wrapper's assertion to the implementing type would fail, so it is converted explicitly.
+fn dyn_data_expr(goenv: &GlobalGoEnv, imm: &anf::ImmExpr) -> goast::Expr {
+    let value = compile_imm(goenv, imm);
+    let anf::ImmExpr::ImmPrim { .. } = imm else {
+        return value;
+    };
+    let name = match imm_ty(imm) {
+        tast::Ty::TInt8 => "int8",
+        tast::Ty::TInt16 => "int16",
+        tast::Ty::TInt32 => "int32",
+        tast::Ty::TInt64 => "int64",
+        tast::Ty::TUint8 => "uint8",
+        tast::Ty::TUint16 => "uint16",
+        tast::Ty::TUint32 => "uint32",
+        tast::Ty::TUint64 => "uint64",
+        tast::Ty::TFloat32 => "float32",
+        tast::Ty::TFloat64 => "float64",
+        _ => return value,
+    };
+    let go_ty = tast_ty_to_go_type(&imm_ty(imm));
+    goast::Expr::Call {
+        func: Box::new(goast::Expr::Var {
+            name: name.to_string(),
+            ty: goty::GoType::TFunc {
+                params: vec![go_ty.clone()],
+                ret_ty: Box::new(go_ty.clone()),
+            },
+        }),
+        args: vec![value],
+        ty: go_ty,
+    }
+}
+
 fn imm_ty(imm: &anf::ImmExpr) -> tast::Ty {
     match imm {
         anf::ImmExpr::ImmVar { ty, .. }
@@ -1256,7 +1291,7 @@ fn compile_cexpr(goenv: &GlobalGoEnv, e: &anf::CExpr) -> goast::Expr {
 
             goast::Expr::StructLiteral {
                 fields: vec![
-                    ("data".to_string(), compile_imm(goenv, expr)),
+                    ("data".to_string(), dyn_data_expr(goenv, expr)),
                     ("vtable".to_string(), vtable_expr),
                 ],
                 ty: dyn_struct_ty,
